@@ -417,6 +417,7 @@ def r4_sweep(ctx, chk, rule="C01.4"):
 def r5_flag(ctx, chk, rule="C01.5"):
     """The pruning flag may be forwarded and may guard a raise; nothing else may depend on it."""
     n_inst = 0
+    validated = set()
     for q in (SOLVER_SR, SOLVER_VIR):
         f = ctx.func(q)
         flag = f.params[-1]
@@ -435,6 +436,11 @@ def r5_flag(ctx, chk, rule="C01.5"):
                     cs = ctx.cg.resolve(p, f)
                     if cs and all(c.qual in (SOLVER_VIR, SOLVER_SR) for c in cs):
                         chk.ok(rule, f.where(n), "flag `%s` forwarded to %s" % (flag, cs[0].short))
+                        continue
+                    # forwarded to a helper that uses it for nothing but the guard of a raise (the no-solution test, moved out)
+                    if cs and len(cs) == 1 and q == SOLVER_VIR and _guard_only_helper(ctx, cs[0], p, n):
+                        validated.add(cs[0].qual)
+                        chk.ok(rule, f.where(n), "flag `%s` forwarded to %s, where it only guards a raise (its exact condition is judged by C06.2)" % (flag, cs[0].short))
                         continue
                     chk.violation(rule, f.where(n), "the pruning flag is passed to `%s`: reachability results may depend on it" % call_name(p),
                                   expected="flag only forwarded to the reachability sweep or guarding the 'no solution' raise",
@@ -468,7 +474,7 @@ def r5_flag(ctx, chk, rule="C01.5"):
     # kernels and strategy extraction must not see the flag: they have no such parameter and no access path
     scope = ctx.cg.reachable([ctx.func(SOLVER_SR)])
     for g in scope:
-        if g.qual in (SOLVER_SR, SOLVER_VIR):
+        if g.qual in (SOLVER_SR, SOLVER_VIR) or g.qual in validated:
             continue
         for n in walk_no_nested_defs(g.node):
             nm = shared.solver_names(ctx)
@@ -479,6 +485,42 @@ def r5_flag(ctx, chk, rule="C01.5"):
                               construct="%s reads prune_states" % g.short)
     if n_inst < 2:
         chk.undecided(rule, "-", "fewer than two uses of the pruning flag found in the reachability functions")
+
+
+def _guard_only_helper(ctx, g, call, arg):
+    """g receives the flag as the parameter matching `arg` and every use of that parameter is in the test of an `if` without else
+    whose body only raises (and logs); g returns nothing and stores nothing."""
+    params = [a.arg for a in g.node.args.args]
+    if params and params[0] == "self" and isinstance(call.func, ast.Attribute):
+        params = params[1:]
+    if arg in call.args:
+        i = call.args.index(arg)
+        if i >= len(params):
+            return False
+        pname = params[i]
+    else:
+        pname = next((k.arg for k in call.keywords if k.value is arg), None)
+        if pname not in params:
+            return False
+    uses = [x for x in walk_no_nested_defs(g.node) if isinstance(x, ast.Name) and x.id == pname]
+    if not uses or any(not isinstance(x.ctx, ast.Load) for x in uses):
+        return False
+    cfg = ctx.cfg(g)
+    for x in uses:
+        st = cfg.stmt_of(x)
+        if not (isinstance(st, ast.If) and _in(x, st.test) and not st.orelse and any(isinstance(b, ast.Raise) for b in st.body)
+                and all(isinstance(b, ast.Raise) or _is_log(b) for b in st.body)):
+            return False
+    # nothing else happens in the helper: tests, raises, logging
+    for st in g.node.body:
+        if isinstance(st, ast.Expr) and isinstance(st.value, ast.Constant):
+            continue
+        if isinstance(st, ast.If) or _is_log(st) or (isinstance(st, ast.Return) and st.value is None):
+            if isinstance(st, ast.If) and not all(isinstance(b, ast.Raise) or _is_log(b) for b in st.body + st.orelse):
+                return False
+            continue
+        return False
+    return True
 
 
 def _in(n, tree):
